@@ -32,8 +32,8 @@ def generate(st):
     sw, g, f = st.swarm, st.gen, st.fault
     big = sw.random() < 0.3
     cfg = {
-        'n_dates': sw.choice([17, 20, 30, 40, 60]) if big else sw.choice([1, 2, 3, 3, 4, 5, 6, 8]),
-        'n_ops': sw.choice([4, 6, 8, 10, 12]) if big else sw.choice([5, 8, 10, 14, 18, 24]),
+        'n_dates': sw.choice([17, 20, 30, 40, 60] + ([120] if getattr(st, 'deep', False) else [])) if big else sw.choice([1, 2, 3, 3, 4, 5, 6, 8]),
+        'n_ops': sw.choice([4, 6, 8, 10, 12]) if big else sw.choice([5, 8, 10, 14, 18, 24] + ([40] if getattr(st, 'deep', False) else [])),
         'values': sorted(sw.sample([1.0, 2.0, 3.0, 4.0, 7.5], sw.randint(2, 4))),
         'p_nan': sw.choice([0.0, 0.1, 0.3, 0.5]),
         'p_partial': sw.choice([0.0, 0.3, 0.6]),
